@@ -137,6 +137,8 @@ def with_siblings(tables: List[dict], seed: int) -> List[dict]:
                                      {"k": "insert", "xs": [rng.choice(tg)]}, {"k": "replace", "xs": [rng.choice(tg)]}]))
             else:
                 E.append(e)
+        if _cyclic(U):
+            continue        # the replacement closed a cycle: no finite reference for the sibling
         out.append({"root": t["root"], "U": U, "E": E, "C": [False] * NF, "sib": 0})
         out[i]["sib"] = len(out)
     return out
